@@ -1,6 +1,6 @@
 (* C12 — Range proofs never establish a false inequality (statement logic). *)
 From Coq Require Import ZArith List.
-From Gabi Require Import ModArith GoSem ParamsDef Keys RangeProof RangeSound Core CoreTotal CoreSound.
+From Gabi Require Import ModArith GoSem ParamsDef Keys RangeProof RangeSound Core CoreTotal CoreSound ZkProof SignedPow ZkComplete ZkExtract.
 Import ListNotations.
 Open Scope Z_scope.
 
@@ -62,3 +62,20 @@ Example c12_example :
   accepted_descriptor p 10 /\ holds (rp_Sign p) (rp_A p) 10 2 /\
   proves_statement p (-1) 1 2 = true /\ proves_statement p (-1) 4611686018427387905 3 = false.
 Proof. exact c12_example_lem. Qed.
+
+(* The algebraic half of the knowledge extractor, for every statement of the proof system (in particular the three
+   relations of the non-revocation proof and the relations of a range proof): two accepted transcripts with the
+   same commitment T and challenges c > c' yield exponents (the response differences, scaled by the public powers)
+   that represent lhs^(c - c') over the bases. Whether such a representation can exist for a false statement is the
+   strong-RSA assumption and stays outside the model. *)
+Theorem two_transcripts_give_representation :
+  forall strict n bases res res' c c' s lhs linv ts ts' T,
+  1 < n -> 0 <= c' <= c ->
+  lhs_fold strict n bases (q_lhs s) 0 1 = Ok lhs -> go_modinverse lhs n = Some linv ->
+  resolve_q n bases res (q_rhs s) = Some ts -> resolve_q n bases res' (q_rhs s) = Some ts' ->
+  qr_from_proof_gen strict n bases res c s = Ok T ->
+  qr_from_proof_gen strict n bases res' c' s = Ok T ->
+  exists terms : list sterm,
+    map (fun t => (s_b t, s_bi t, s_es t)) terms = ts /\ map (fun t => (s_b t, s_bi t, s_er t)) terms = ts' /\
+    sprod n (fun t => s_es t - s_er t) terms = powm n lhs (c - c').
+Proof. exact qr_two_transcripts_lem. Qed.
